@@ -58,7 +58,7 @@ def run(ctx):
     rng = ctx.rng
     cases, obs, reqs = [], [], []
     OPS = ["infer", "file_rt", "dict_rt"]
-    for i in range(ctx.n(160)):
+    for i in range(ctx.n(160, 320)):
         grouped = i % 8 == 7
         if grouped:
             # groups > 1 is outside C06/C08's stated domain (declared conv input channels ignore `groups`), so only
@@ -74,7 +74,7 @@ def run(ctx):
         #     written (None), so the graph is inferred first or fully annotated
         histories = []
         all_h = [h for n in range(1, 5) for h in itertools.product(OPS, repeat=n)]
-        for h in rng.sample(all_h, 6 if ctx.tier == "quick" else 30):
+        for h in rng.sample(all_h, 6 if ctx.tier == "quick" else 14):
             histories.append(list(h))
         histories.append(["infer", "file_rt"])
         histories.append(["infer", "file_rt", "infer"])
